@@ -1,7 +1,7 @@
 (* Month.v — Calendar::month_shape of every calendar a user can hold, against the set of days that
    exist in the month (Spec.old_mdays / new_mfirst / new_mdays / natural_len). *)
 From JV Require Import Sem Gen Spec SpecX.
-From JV.Proofs Require Import SpecFacts GapFacts Cal Cmp Inner Year MonthGeom Shape.
+From JV.Proofs Require Import SpecFacts GapFacts Cal Cmp Inner Year MonthGeom Shape Meq.
 Open Scope Z_scope.
 Ltac Zify.zify_post_hook ::= Z.to_euclidean_division_equations.
 
@@ -57,20 +57,16 @@ Lemma month_shape_unfold self year month :
   | Month_February => feb_len_k self year (ms_tail self year month)
   | _ => ms_tail self year month (month_base_len month)
   end.
-Proof. destruct month; reflexivity. Qed.
+Proof.
+  destruct month; first [ reflexivity
+    | unfold Calendar_month_shape, feb_len_k, ms_tail, month_base_len, Calendar_gap, YearKind_is_leap; timeout 120 meq ].
+Qed.
 
 Lemma base_len_mlen l m : Month_discr m <> 2 -> month_base_len m = mlen l (Month_discr m).
 Proof. destruct m; cbn [Month_discr]; intros; try reflexivity; lia. Qed.
 
 Lemma ym_lt_P y m y' m' : ym_lt y m y' m' = true <-> ym_ltP y m y' m'.
 Proof. unfold ym_lt, ym_ltP. lia. Qed.
-
-Ltac cmp_simpl :=
-  repeat match goal with
-  | |- context[?a <? ?b] => first [replace (a <? b) with true by lia | replace (a <? b) with false by lia]
-  | |- context[?a =? ?b] => first [replace (a =? b) with true by lia | replace (a =? b) with false by lia]
-  | |- context[?a <=? ?b] => first [replace (a <=? b) with true by lia | replace (a <=? b) with false by lia]
-  end.
 
 Ltac ifd_inner :=
   match goal with
